@@ -13,23 +13,26 @@ DD = ('dict', OD([('degree', ('tuple', 'int')), ('knotvector', ('tuple', ('list'
 P_, U_, N_ = "datadict['degree'][0]", "datadict['knotvector'][0]", "datadict['size'][0]"
 CP = "datadict['control_points']"
 
-REQ = ['not datadict["rational"]'.replace('"', "'"),
-       '%s >= 0' % P_, '%s >= %s + 1' % (N_, P_), 'len(%s) == %s + %s + 1' % (U_, N_, P_),
+DIM = "(datadict['dimension'] + (1 if datadict['rational'] else 0))"
+REQ = ['%s >= 0' % P_, '%s >= %s + 1' % (N_, P_), 'len(%s) == %s + %s + 1' % (U_, N_, P_),
        'forall(a, 0, len(%s), forall(b, a, len(%s), %s[a] <= %s[b]))' % (U_, U_, U_, U_),
        '%s[%s - 1] < %s[%s]' % (U_, N_, U_, N_),
        'len(%s) == %s' % (CP, N_), "datadict['dimension'] >= 1",
-       "forall(q, 0, len(%s), len(%s[q]) == datadict['dimension'])" % (CP, CP),
+       "forall(q, 0, len(%s), len(%s[q]) == %s)" % (CP, CP, DIM),
        '%s[%s] <= kw_start' % (U_, P_), 'kw_start <= %s[%s]' % (U_, N_),
        '%s[%s] <= kw_stop' % (U_, P_), 'kw_stop <= %s[%s]' % (U_, N_),
        # ghost half-space: coordinate d0 of every control point is <= c
-       "0 <= d0", "d0 < datadict['dimension']",
-       'forall(q, 0, len(%s), %s[q][d0] <= c)' % (CP, CP)]
+       "0 <= d0", "d0 < %s" % DIM,
+       'forall(q, 0, len(%s), %s[q][d0] <= c)' % (CP, CP),
+       # ghost positivity: coordinate d1 of every control point is > 0 (the weight coordinate of a rational shape)
+       "0 <= d1", "d1 < %s" % DIM,
+       'forall(q, 0, len(%s), %s[q][d1] > 0)' % (CP, CP)]
 
 CONTRACTS = {
     'evaluators.CurveEvaluator.evaluate': dict(
         props=['C01', 'C18'],
         args=OD([('self', 'self'), ('datadict', DD), ('kwargs', 'kwargs')]),
-        ghost_args=OD([('kw_start', 'real'), ('kw_stop', 'real'), ('d0', 'int'), ('c', 'real')]),
+        ghost_args=OD([('kw_start', 'real'), ('kw_stop', 'real'), ('d0', 'int'), ('c', 'real'), ('d1', 'int')]),
         kwargs={'start': '$kw_start', 'stop': '$kw_stop'},
         self={'_span_func': ('func', 'helpers.find_span_linear')},
         funcs=FUNCS,
@@ -37,13 +40,17 @@ CONTRACTS = {
         requires=REQ,
         ensures=["implies(abs(kw_start - kw_stop) <= '1/10000000', len(result) == 1)",
                  "implies(abs(kw_start - kw_stop) > '1/10000000' and datadict['sample_size'][0] > 1, len(result) == datadict['sample_size'][0])",
-                 "forall(k, 0, len(result), len(result[k]) == datadict['dimension'])",
+                 "forall(k, 0, len(result), len(result[k]) == %s)" % DIM,
                  # hull / bounding box, coordinate d0
-                 'forall(k, 0, len(result), result[k][d0] <= c)'],
+                 'forall(k, 0, len(result), result[k][d0] <= c)',
+                 # a convex combination of positive numbers is positive (weight function of a rational curve)
+                 'forall(k, 0, len(result), result[k][d1] > 0)'],
         loops={0: dict(inv=['len(eval_points) == idx',
-                            "forall(k, 0, idx, len(eval_points[k]) == datadict['dimension'] and eval_points[k][d0] <= c)"]),
-               1: dict(inv=["len(crvpt) == datadict['dimension']",
-                            'crvpt[d0] <= c * sum(basis[idx], 0, i)'])},
+                            "forall(k, 0, idx, len(eval_points[k]) == %s and eval_points[k][d0] <= c and eval_points[k][d1] > 0)" % DIM]),
+               1: dict(inv=["len(crvpt) == %s" % DIM,
+                            'crvpt[d0] <= c * sum(basis[idx], 0, i)',
+                            'sum(basis[idx], 0, i) >= 0', 'crvpt[d1] >= 0',
+                            '(sum(basis[idx], 0, i) == 0 and crvpt[d1] == 0) or crvpt[d1] > 0'])},
         rounds=3,
     ),
 }
